@@ -316,19 +316,38 @@ func C05(r *core.Run) {
 		A       string
 		In, Cli string
 		Agree   bool
+		Start   string // result when started in the decoy directory, if it differs
 	}
 	conf, d2 := core.Parallel(r, "conf", in{dir, cases, 0}, r.Workers, func(in in, shard, n int, emit func(confRes)) {
 		wd := filepath.Join(in.Dir, fmt.Sprint("c", shard))
 		c05Tree().Materialise(wd)
 		root := inproc.NewRoot(wd)
+		// the CLI is started in a directory that holds files and directories named like the include files
+		decoys := core.Tree{"gen.ra": "DECOY\n", "include/plain.ra": "DECOY\n", "regex-assembly.txt": "x\n"}
+		for name := range c05ModelFiles() {
+			if len(name)%2 == 0 {
+				decoys[name+".ra"] = "DECOY\n"
+			} else {
+				decoys[name+".ra/"] = ""
+			}
+		}
+		cwd := wd + "-startdir"
+		decoys.Materialise(cwd)
 		for i, c := range in.Cases {
 			if i%n != shard || c.Ext {
 				continue
 			}
 			a, _ := c.build(nil)
+			if c.File == "gen" {
+				os.WriteFile(filepath.Join(wd, "regex-assembly/include/gen.ra"), []byte(c.Text), 0o644)
+			}
 			o := root.Generate(a)
 			cli := core.RunCLI(r.Crs, wd, a, nil, "-d", wd, "regex", "generate", "-")
-			emit(confRes{a, o.String(), cliClass(cli), agreeCLI(o, cli)})
+			res := confRes{A: a, In: o.String(), Cli: cliClass(cli), Agree: agreeCLI(o, cli)}
+			if other := core.RunCLI(r.Crs, cwd, a, nil, "-d", wd, "regex", "generate", "-"); cliClass(other) != cliClass(cli) {
+				res.Start = cliClass(other)
+			}
+			emit(res)
 		}
 	})
 	deaths = append(deaths, d2...)
@@ -339,11 +358,17 @@ func C05(r *core.Run) {
 		r.HarnessError("worker %s/%d %s on %q: %s", d.Stage, d.Shard, d.Kind, d.Case, tailStr(d.Log, 300))
 	}
 	validated := 0
+	startSeen := 0
 	for _, c := range conf {
 		if c.Agree {
 			validated++
 		} else {
 			r.HarnessError("in-process and CLI disagree on %q: %s vs %s", c.A, c.In, c.Cli)
+		}
+		if c.Start != "" {
+			if startSeen++; startSeen <= 3 {
+				r.Report(core.Violation{Clause: "lookup-order", Key: "start directory: " + c.A, What: fmt.Sprintf("program %q gives %s when the tool is started in the root but %s when it is started in a directory that holds files named like the include files", c.A, clip([]string{c.Cli}, 120), clip([]string{c.Start}, 120)), Repro: reproGenerate(c.A)})
+			}
 		}
 	}
 	var tot c05Out
